@@ -20,17 +20,20 @@ CHECKS = {
             "explicit-state BFS over developer/tool histories whose transition function is the real binary (incl. every fault/kill/signal point of each edit run)",
             "States are (tree, lock, retired-ID set); events are developer edits and check/edit runs, each edit run additionally with every "
             "kill / I/O failure / stop signal at every operation of that run; the ghost-map invariant (no retired ID is ever carried again, no ID on two "
-            "statements) is evaluated in every reached state up to the depth bound.",
+            "statements) is evaluated in every reached state up to the depth bound. A second, exhaustive sweep covers what small histories cannot: every pair of "
+            "per-file statement counts 1..20 (thorough 1..70) x lock start values, the edit run killed before/after every rename and every lock-file operation; "
+            "a lock that does not cover an ID already on disk is converted into a concrete reuse by a witness continuation.",
             "Process death at libc-call boundaries with the page cache intact; lock file not edited by hand (the property's premise).", "§2.2, §3 C02"),
     "C03": ("E4 + E3", "exploration",
             "bounded-exhaustive enumeration of file contents (all token sequences to a length bound, shape products, single-token-edit neighbourhoods of real code) through the real edit command, token-strip oracle",
-            "For every enumerated file the edit run's output must be the original plus inserted reference tokens only (backtracking token-strip); files without a missing "
+            "For every enumerated file (incl. files that are not valid UTF-8) the edit run's output must be the original plus inserted reference tokens only (backtracking token-strip); files without a missing "
             "statement stay byte-identical; statements with a valid reference receive nothing.",
             "Byte strings outside the token alphabet / length bound are not covered.", "§3 C03"),
     "C04": ("E1 monitor + E4 configs", "fault_enumeration",
             "full configuration product plus every fault/signal/kill point of --check runs under the libc interposer; trace monitor + inode/mtime snapshots",
             "No mutating libc call on anything but stdout/stderr appears in the interposed trace of any --check run, and content+metadata snapshots of project, TMPDIR, cwd and an "
-            "outside directory are identical, for the full configuration product and for every single injected fault, signal and kill at every operation of four representative runs.",
+            "outside directory are identical, for the full configuration product, for every single injected fault, signal and kill at every operation of four representative runs, "
+            "and for a --check run on every state that an edit run leaves behind when it is killed, failed or interrupted at every one of its operations.",
             "Interposition is complete for the mutating libc surface (strace self-test).", "§3 C04"),
     "C05": ("E4 differential", "exploration",
             "bounded-exhaustive enumeration of trees; differential check --check report vs edit-run diff",
@@ -44,7 +47,8 @@ CHECKS = {
     "C07": ("E1-fsx", "fault_enumeration",
             "stateless exhaustive exploration of the real binary under a libc fault injector: every operation x {kill-before, kill-after, fail(errno menu), short write}, deviation bound 1 (quick) / 2 (thorough)",
             "For every filesystem operation of scenarios S1-S7 and every action, the process is run to termination on a fresh tree; afterwards every source file must be its original bytes or "
-            "the complete update (token-strip equal to the original with the insertion offsets of the fault-free run) and nothing else in the project or outside changed.",
+            "the complete update (token-strip equal to the original with the insertion offsets of the fault-free run) and nothing else in the project or outside changed. "
+            "The same exploration is repeated in the environment 'temp directory on another file system' (every rename out of TMPDIR fails with EXDEV in every execution).",
             "Crash = process death at an interposed libc call boundary, page cache intact; no torn sector, no power loss.", "§2.1, §3 C07"),
     "C08": ("E1-fsx", "fault_enumeration",
             "stateless exhaustive exploration of fault sets on temp-file creation, temp-file writes and renames (single, sticky, multiple; real cross-filesystem TMPDIR)",
@@ -63,7 +67,7 @@ CHECKS = {
             "For all sequences of 1-3 (thorough 4) items from the decoy alphabet and real statements, the parser's entries are exactly the real statements; through the CLI no decoy byte changes.",
             "Decoy alphabet as listed in DESIGN.", "§3 C11"),
     "C12": ("E3-vh", "exploration",
-            "exhaustive enumeration of all message prefixes up to length 5 (thorough 6) over a 12-symbol alphabet, all boundary near-misses, and the inserted token for all N in the quick/thorough ranges",
+            "exhaustive enumeration of all message prefixes up to length 5 (thorough 6) over a 13-symbol alphabet, all boundary near-misses, and the inserted token for all N in the quick/thorough ranges",
             "present(m) iff m starts with `[ref: `, 1-10 ASCII digits, `]`, value <= 4294967295, decided by the real parser for every enumerated message; the inserted token satisfies the rule and the documented regex.",
             "Alphabet and length bound.", "§3 C12"),
     "C13": ("E3-vh + E4", "exploration",
@@ -83,7 +87,7 @@ CHECKS = {
             "Exit status, start ID, lock file before/after and style/scope agree with the guide for every combination; invalid set-ups exit non-zero and change nothing.",
             "Reference model of the guide (~40 lines).", "§3 C16"),
     "C17": ("E3-vh + E4", "exploration",
-            "exhaustive enumeration of all token sequences up to length 4 (thorough 5) over a 27-token alphabet, complete 1-/2-edit neighbourhoods of skeleton statements, invalid-UTF-8 and size families",
+            "exhaustive enumeration of all token sequences up to length 4 (thorough 5) over a 27-token alphabet, complete 1-/2-edit neighbourhoods of skeleton statements, UTF-8 alignment sweep at power-of-two boundaries, invalid-UTF-8 and size families",
             "No unwind escapes the parser in-process; through the CLI no exit 101/abort/signal and bounded wall time; unreadable files are reported and skipped while the others are processed.",
             "Byte strings beyond the bound are not covered.", "§3 C17"),
     "C18": ("E1-fsx", "model_checking",
